@@ -8,6 +8,7 @@ package lib
 // the real ParseConfig + OnReload) mixing valid, malformed and unreadable configuration and subnet files.
 
 import (
+	"context"
 	"errors"
 	"fmt"
 	"go/ast"
@@ -209,48 +210,13 @@ func (w *c19World) loadCase(out *vlib.Out, content string) c19Load {
 		return res
 	}
 	rc := res.conf.RegConfig
-	// every entry of an accepted configuration is enforced; an entry that cannot be parsed must have failed the load
-	check := func(list string, entries []string, enforced func(n *net.IPNet) bool) {
-		for _, e := range entries {
-			_, n, err := net.ParseCIDR(strings.TrimSpace(e))
-			if err != nil {
-				fail("C19:unparsable-entry-accepted", fmt.Sprintf("%s entry %q cannot be parsed but the configuration was accepted", list, e))
-				continue
-			}
-			if !enforced(n) {
-				fail("C19:entry-not-enforced", fmt.Sprintf("%s entry %q is not enforced by the accepted configuration", list, e))
-			}
-		}
-	}
-	hasAllow := len(raw.CovertAllowlistSubnets) > 0
-	check("covert_blocklist_subnets", raw.CovertBlocklistSubnets, func(n *net.IPNet) bool {
-		if hasAllow {
-			// the allowlist overrides: enforcement of the blocklist is observable on the parsed list only
-			for _, m := range rc.covertBlocklistSubnets {
-				if m.String() == n.String() {
-					return true
-				}
-			}
-			return false
-		}
-		return rc.isBlocklistedCovertAddr(n.IP)
-	})
-	check("phantom_blocklist", raw.PhantomBlocklist, func(n *net.IPNet) bool { return rc.IsBlocklistedPhantom(n.IP) })
-	check("covert_allowlist_subnets", raw.CovertAllowlistSubnets, func(n *net.IPNet) bool { return !rc.isBlocklistedCovertAddr(n.IP) })
-	if hasAllow {
-		// an address outside every allowlisted subnet is refused
-		probe := net.ParseIP("203.0.113.250")
-		inside := false
-		for _, e := range raw.CovertAllowlistSubnets {
-			if _, n, err := net.ParseCIDR(strings.TrimSpace(e)); err == nil && n.Contains(probe) {
-				inside = true
-			}
-		}
-		if !inside && !rc.isBlocklistedCovertAddr(probe) {
-			fail("C19:allowlist-not-enforced", "an allowlist is configured but 203.0.113.250 outside it is permitted")
-		}
-	}
-	if raw.CovertBlocklistPublicAddrs && !hasAllow {
+	// every entry of an accepted configuration is enforced; an entry that cannot be parsed must have failed the
+	// load.  "Enforced" is observed on addresses sampled inside every single entry (first, last, middle,
+	// pseudo-random) through the decision functions and through ParseOrResolveBlocklisted, so that an entry
+	// that is shadowed, merged or dropped because of another entry of the list shows.
+	en := &c19Enforce{rc: rc, raw: raw, fail: fail, out: out}
+	en.run()
+	if raw.CovertBlocklistPublicAddrs && len(raw.CovertAllowlistSubnets) == 0 {
 		// covert_blocklist_public_addrs: every address of a local interface is refused (the harness's own
 		// reading of net.Interfaces, taken at start)
 		for _, n := range w.ifaces {
@@ -261,14 +227,19 @@ func (w *c19World) loadCase(out *vlib.Out, content string) c19Load {
 		}
 		out.Count("load:public-addrs-checked")
 	}
-	for _, e := range raw.CovertBlocklistDomains {
-		if _, err := regexp.Compile(e); err != nil {
-			fail("C19:unparsable-entry-accepted", fmt.Sprintf("covert_blocklist_domains entry %q does not compile but the configuration was accepted", e))
-			continue
+	// the decisions of the loaded policy on samples of its own entries, as a correspondence case (the reload
+	// model with no reload: `ok:<decisions>`)
+	if pr, ok := c19LoadProbes(raw); ok {
+		ifs := "-"
+		if len(w.ifaces) > 0 {
+			var t []string
+			for _, n := range w.ifaces {
+				t = append(t, c19NetTok(n, pr.addrs))
+			}
+			ifs = strings.Join(t, "/")
 		}
-		if s, ok := c19PatternSample[e]; ok && !rc.isBlocklistedCovertDomain(s) {
-			fail("C19:entry-not-enforced", fmt.Sprintf("covert_blocklist_domains entry %q does not block %q", e, s))
-		}
+		out.Case(fmt.Sprintf("reload2|%d,%d,%d|%s|%s|", len(pr.addrs), len(pr.hosts), len(pr.phantoms), ifs, pr.confFields(path)), "ok:"+pr.observe(rc), true)
+		out.Count("load:decisions-compared")
 	}
 	return res
 }
@@ -434,11 +405,12 @@ type c19Probes struct {
 }
 
 func (w *c19World) probes(n int) c19Probes {
-	p := c19Probes{addrs: []string{"127.0.0.1", "198.51.100.1", "192.0.2.77", "8.8.8.8", "2001:db8::1", "10.0.0.99"},
+	p := c19Probes{addrs: []string{"127.0.0.1", "198.51.100.1", "192.0.2.77", "8.8.8.8", "2001:db8::1", "10.0.0.99", "198.51.100.200", "2001:db8:ffff::1", "192.0.2.1"},
 		hosts: []string{"localhost", "example.com"}, phantoms: []string{"192.0.2.9"}}
 	for k := 0; k <= n; k++ {
-		p.addrs = append(p.addrs, fmt.Sprintf("198.18.%d.1", k))
-		p.hosts = append(p.hosts, fmt.Sprintf("marker-%d.test", k))
+		// .1 lies in every entry that carries the marker of reload k, .200 only in the widest of them
+		p.addrs = append(p.addrs, fmt.Sprintf("198.18.%d.1", k), fmt.Sprintf("198.18.%d.200", k))
+		p.hosts = append(p.hosts, fmt.Sprintf("marker-%d.test", k), fmt.Sprintf("sub.marker-%d.test", k), fmt.Sprintf("MARKER-%d.test", k))
 		p.phantoms = append(p.phantoms, fmt.Sprintf("203.0.113.%d", k))
 	}
 	seen := map[string]bool{}
@@ -455,7 +427,7 @@ func (w *c19World) probes(n int) c19Probes {
 }
 
 // decisions of the running manager on the probe set: one 0/1 per probe, "refused?"
-func (p c19Probes) observe(rm *RegistrationManager) string {
+func (p c19Probes) observe(rm *RegConfig) string {
 	var a, h, ph strings.Builder
 	for _, x := range p.addrs {
 		a.WriteString(vlib.B(rm.isBlocklistedCovertAddr(net.ParseIP(x))))
@@ -515,6 +487,31 @@ func (p c19Probes) expect(d c19Desc, ifaces []*net.IPNet) string {
 		ph.WriteString(vlib.B(in(phantom, net.ParseIP(x))))
 	}
 	return a.String() + ":" + h.String() + ":" + ph.String()
+}
+
+// admission: the decision a client's covert address actually meets after a (re)load —
+// ParseOrResolveBlocklisted on the live manager, for the literal address probes (one 0/1 per probe: refused?)
+func (p c19Probes) admission(rm *RegConfig) string {
+	var a strings.Builder
+	for _, x := range p.addrs {
+		got, _ := rm.ParseOrResolveBlocklisted(net.JoinHostPort(x, "443"))
+		a.WriteString(vlib.B(got == ""))
+	}
+	return a.String()
+}
+
+// expectAdmission: a literal is refused iff the address policy in force refuses the address or a domain
+// pattern in force matches its text
+func (p c19Probes) expectAdmission(d c19Desc, ifaces []*net.IPNet) string {
+	b := []byte(strings.SplitN(p.expect(d, ifaces), ":", 2)[0])
+	for i, x := range p.addrs {
+		for _, e := range d.domains {
+			if re, err := regexp.Compile(e); err == nil && re.MatchString(x) {
+				b[i] = '1'
+			}
+		}
+	}
+	return string(b)
 }
 
 // tokens for the model: per configured entry what the real parser and the real Contains / MatchString
@@ -632,22 +629,53 @@ func c19HeldLocks(root any) []string {
 	return held
 }
 
+// One reload.  Which of the three loading steps of a reload fail is a dimension of its own: the
+// configuration file (conf: kinds that load / kinds that do not), the phantom subnets file (subnets) and
+// the GeoIP databases the configuration names (geo) vary independently, so that every subset of
+// {configuration, subnets, GeoIP} fails in some event, next to every kind of configuration.
 type c19Event struct {
 	conf    string // kind of configuration file, see c19ConfKinds
 	subnets string // valid, bad-toml, unreadable, bad-generation
+	geo     string // "" / none (no database named: ErrMissingDB, loads), nonexistent, garbage, garbage-asn, directory (fail)
 }
 
-var c19ConfKinds = []string{"valid", "valid-allow", "valid-geobad", "valid-allow2", "valid-public", "toggle-allow", "valid-geogarbage",
-	"bad-subnet", "bad-allow", "bad-pattern", "bad-toml", "unreadable", "directory", "empty", "zmq-only", "bad-type", "bad-bare-ip"}
+func (e c19Event) String() string {
+	if e.geo == "" {
+		return e.conf + "/" + e.subnets
+	}
+	return e.conf + "/" + e.subnets + "/" + e.geo
+}
 
-const c19ValidKinds = 7 // the first entries of c19ConfKinds load
+func c19ParseEvent(s string) (c19Event, bool) {
+	p := strings.Split(s, "/")
+	switch len(p) {
+	case 2:
+		return c19Event{p[0], p[1], ""}, true
+	case 3:
+		return c19Event{p[0], p[1], p[2]}, true
+	}
+	return c19Event{}, false
+}
+
+// the GeoIP dimension: kinds that load (no database named) and kinds that fail
+var c19GeoKinds = []string{"none", "nonexistent", "garbage", "garbage-asn", "directory"}
+
+var c19ConfKinds = []string{"valid", "valid-allow", "valid-geobad", "valid-allow2", "valid-public", "toggle-allow", "valid-geogarbage",
+	"valid-related", "valid-related-allow",
+	"bad-subnet", "bad-allow", "bad-pattern", "bad-toml", "unreadable", "directory", "empty", "zmq-only", "bad-type", "bad-bare-ip", "bad-phantom", "bad-related"}
+
+const c19ValidKinds = 9 // the first entries of c19ConfKinds load
+
+func c19ConfLoads(kind string) bool {
+	return strings.HasPrefix(kind, "valid") || kind == "toggle-allow" || kind == "empty" || kind == "zmq-only"
+}
 
 var c19SubnetKinds = []string{"valid", "valid", "bad-toml", "unreadable", "bad-generation"}
 
 func (w *c19World) reloadCase(out *vlib.Out, evs []c19Event) {
 	var desc []string
 	for _, e := range evs {
-		desc = append(desc, e.conf+"/"+e.subnets)
+		desc = append(desc, e.String())
 	}
 	replay := "c19reload|" + strings.Join(desc, ",")
 	fail := func(sig, what string) { out.OracleFail(sig, what+" — reload sequence "+strings.Join(desc, ","), replay) }
@@ -672,10 +700,13 @@ func (w *c19World) reloadCase(out *vlib.Out, evs []c19Event) {
 	var mline, outs []string
 	dead := false
 	sv, gv := 0, 0
-	start := pr.observe(rm)
+	start := pr.observe(rm.RegConfig)
 	out.Checked()
 	if want := pr.expect(inForce, w.ifaces); start != want {
 		fail("C19:entry-not-enforced", fmt.Sprintf("start-up: decisions %s on the probe set, the configuration calls for %s", start, want))
+	}
+	if adm, wantAdm := pr.admission(rm.RegConfig), pr.expectAdmission(inForce, w.ifaces); adm != wantAdm {
+		fail("C19:admission-not-by-policy-in-force", fmt.Sprintf("start-up: ParseOrResolveBlocklisted refuses %s of the literal probes %v, the configuration calls for %s", adm, pr.addrs, wantAdm))
 	}
 	outs = append(outs, "ok:"+start)
 	garbage := w.write("garbage.mmdb", "this is not a MaxMind database\n")
@@ -710,8 +741,22 @@ func (w *c19World) reloadCase(out *vlib.Out, evs []c19Event) {
 			} else {
 				nd.allow = []string{"198.51.100.0/24"}
 			}
+		case "valid-related":
+			// entries that are related to one another: same network address with different prefix lengths
+			// (narrow first), an exact repetition, a pattern that is a suffix / a case-insensitive form of another
+			nd.block = []string{"127.0.0.0/8", fmt.Sprintf("198.18.%d.0/25", k), fmt.Sprintf("198.18.%d.0/24", k), fmt.Sprintf("198.18.%d.0/24", k)}
+			nd.domains = []string{"localhost", fmt.Sprintf("^marker-%d\\.test$", k), fmt.Sprintf("marker-%d\\.test$", k), fmt.Sprintf("(?i)^marker-%d\\.test$", k)}
+			nd.phantom = []string{fmt.Sprintf("203.0.113.%d/32", k), fmt.Sprintf("203.0.113.%d/31", k), fmt.Sprintf("203.0.113.%d/32", k)}
+		case "valid-related-allow":
+			nd.block = []string{fmt.Sprintf("198.18.%d.0/24", k), "127.0.0.0/8", fmt.Sprintf("198.18.%d.0/25", k)}
+			nd.allow = []string{"198.51.100.0/30", "198.51.100.0/24", "2001:db8::/48", "2001:db8::/32", "198.51.100.0/30"}
 		case "bad-subnet":
 			nd.block = append(nd.block, "10.0.0.0/99")
+		case "bad-phantom":
+			nd.phantom = append(nd.phantom, "203.0.113.0/33")
+		case "bad-related":
+			// the malformed entry repeats the network address of a well-formed one
+			nd.block = []string{fmt.Sprintf("198.18.%d.0/24", k), fmt.Sprintf("198.18.%d.0/240", k)}
 		case "bad-bare-ip":
 			nd.block = append(nd.block, "10.0.0.1")
 		case "bad-allow":
@@ -725,17 +770,32 @@ func (w *c19World) reloadCase(out *vlib.Out, evs []c19Event) {
 		case "empty", "zmq-only":
 			nd = c19Desc{}
 		}
+		// the GeoIP databases the file names: an independent dimension (the two kinds of configuration that
+		// name databases themselves keep theirs)
+		geoExtra := ""
+		if e.conf != "valid-geobad" && e.conf != "valid-geogarbage" {
+			switch e.geo {
+			case "nonexistent":
+				geoExtra = "geoip_cc_db_path = \"/nonexistent/cc.mmdb\"\n"
+			case "garbage":
+				geoExtra = fmt.Sprintf("geoip_cc_db_path = %q\ngeoip_asn_db_path = %q\n", garbage, garbage)
+			case "garbage-asn":
+				geoExtra = fmt.Sprintf("geoip_asn_db_path = %q\n", garbage)
+			case "directory":
+				geoExtra = fmt.Sprintf("geoip_cc_db_path = %q\n", w.dir)
+			}
+		}
 		switch e.conf {
 		case "unreadable":
 			confPath = filepath.Join(w.dir, "does-not-exist.toml")
 		case "directory":
 			confPath = w.dir
 		case "empty":
-			w.write("conf.toml", "")
+			w.write("conf.toml", geoExtra)
 		case "zmq-only":
-			w.write("conf.toml", "socket_name = \"zmq-proxy\"\nlog_level = \"error\"\n")
+			w.write("conf.toml", "socket_name = \"zmq-proxy\"\nlog_level = \"error\"\n"+geoExtra)
 		default:
-			w.write("conf.toml", nd.toml())
+			w.write("conf.toml", nd.toml()+geoExtra)
 		}
 		subPath := filepath.Join(w.dir, "subnets.toml")
 		switch e.subnets {
@@ -770,7 +830,7 @@ func (w *c19World) reloadCase(out *vlib.Out, evs []c19Event) {
 		mline = append(mline, cfields+","+sf+","+gf)
 
 		// the SIGHUP branch of main, on the real functions
-		before := pr.observe(rm)
+		before := pr.observe(rm.RegConfig)
 		selBefore := rm.PhantomSelector
 		marker := &c19GeoMarker{id: k}
 		rm.GeoIP = marker
@@ -797,7 +857,7 @@ func (w *c19World) reloadCase(out *vlib.Out, evs []c19Event) {
 			} else if strings.Contains(panicked, "nil pointer") {
 				sig = "C19:reload-panic-no-registration-keys"
 			}
-			fail(sig, fmt.Sprintf("reload %d (%s/%s) panicked: %s", k, e.conf, e.subnets, panicked))
+			fail(sig, fmt.Sprintf("reload %d (%s) panicked: %s", k, e.String(), panicked))
 			dead = true
 			outs = append(outs, "panic")
 			continue
@@ -805,7 +865,7 @@ func (w *c19World) reloadCase(out *vlib.Out, evs []c19Event) {
 		// no lock may stay held once the reload has returned (the readers would block for ever)
 		out.Checked()
 		if held := c19HeldLocks(rm); len(held) > 0 {
-			fail("C19:reload-left-lock-held", fmt.Sprintf("after reload %d (%s/%s) these locks are still held: %s", k, e.conf, e.subnets, strings.Join(held, ", ")))
+			fail("C19:reload-left-lock-held", fmt.Sprintf("after reload %d (%s) these locks are still held: %s", k, e.String(), strings.Join(held, ", ")))
 			dead = true
 			outs = append(outs, "panic")
 			continue
@@ -814,9 +874,17 @@ func (w *c19World) reloadCase(out *vlib.Out, evs []c19Event) {
 		if rm.GeoIPDatabase() != Database(marker) {
 			gv = k
 		}
+		// the GeoIP part: replaced iff the configuration loaded and the databases it names loaded (or are not
+		// named at all); a failed load must not install its (nil) result
+		out.Checked()
+		if geoNew := rm.GeoIPDatabase() != Database(marker); geoNew && (!reloaded || gf == "e") {
+			fail("C19:failed-reload-changed-state", fmt.Sprintf("reload %d (%s): the GeoIP databases did not load (configuration loaded: %v) but the GeoIP database in force was replaced (by %v)", k, e.String(), reloaded, rm.GeoIPDatabase()))
+		} else if !geoNew && reloaded && gf != "e" {
+			fail("C19:reload-geoip-not-replaced", fmt.Sprintf("reload %d (%s): configuration and GeoIP databases loaded but the previous GeoIP database is still in force", k, e.String()))
+		}
 		nsv := c19SelectorVersion(rm, len(evs))
 		if rm.PhantomSelector == nil {
-			fail("C19:failed-reload-changed-state", fmt.Sprintf("after reload %d (%s/%s) the station has no phantom selector at all (the next registration dereferences nil)", k, e.conf, e.subnets))
+			fail("C19:failed-reload-changed-state", fmt.Sprintf("after reload %d (%s) the station has no phantom selector at all (the next registration dereferences nil)", k, e.String()))
 			dead = true
 			outs = append(outs, "panic")
 			continue
@@ -824,7 +892,7 @@ func (w *c19World) reloadCase(out *vlib.Out, evs []c19Event) {
 		if rm.Selector() != rm.PhantomSelector {
 			fail("C19:reload-part-torn", fmt.Sprintf("after reload %d Selector() does not return the selector in force", k))
 		}
-		after := pr.observe(rm)
+		after := pr.observe(rm.RegConfig)
 		// ---- property oracle: each part is new only if its new version loaded, otherwise untouched
 		if !reloaded {
 			if after != before || rm.PhantomSelector != selBefore || rm.GeoIP != Database(marker) {
@@ -845,7 +913,7 @@ func (w *c19World) reloadCase(out *vlib.Out, evs []c19Event) {
 				if mixed {
 					sig = "C19:reload-part-torn"
 				}
-				fail(sig, fmt.Sprintf("reload %d (%s) loaded without error: decisions on the probe set are %s, the new configuration calls for %s (before the reload: %s; probes %v / %v / %v)", k, e.conf, after, want, before, pr.addrs, pr.hosts, pr.phantoms))
+				fail(sig, fmt.Sprintf("reload %d (%s) loaded without error: decisions on the probe set are %s, the new configuration calls for %s (before the reload: %s; probes %v / %v / %v)", k, e.String(), after, want, before, pr.addrs, pr.hosts, pr.phantoms))
 			}
 			inForce = nd
 			if serr != nil && rm.PhantomSelector != selBefore {
@@ -854,6 +922,14 @@ func (w *c19World) reloadCase(out *vlib.Out, evs []c19Event) {
 			if serr == nil && nsv != k {
 				fail("C19:reload-selector-not-replaced", fmt.Sprintf("reload %d: the subnets file loaded but the selector in force is version %d", k, nsv))
 			}
+		}
+		// the same on the path a client's covert address takes: ParseOrResolveBlocklisted on the live manager
+		// decides by the version in force (the new one iff the configuration loaded — whatever happened to the
+		// subnets file and the GeoIP databases of this reload)
+		out.Checked()
+		if adm, wantAdm := pr.admission(rm.RegConfig), pr.expectAdmission(inForce, w.ifaces); adm != wantAdm {
+			fail("C19:admission-not-by-policy-in-force", fmt.Sprintf("after reload %d (%s, configuration loaded: %v): ParseOrResolveBlocklisted refuses %s of the literal probes %v, the version in force calls for %s",
+				k, e.String(), reloaded, adm, pr.addrs, wantAdm))
 		}
 		if (strings.HasPrefix(e.conf, "bad-") || e.conf == "unreadable" || e.conf == "directory") && reloaded {
 			fail("C19:malformed-reload-accepted", fmt.Sprintf("reload %d: a configuration with a malformed entry (%s) was loaded", k, e.conf))
@@ -866,6 +942,9 @@ func (w *c19World) reloadCase(out *vlib.Out, evs []c19Event) {
 		sv = nsv
 		outs = append(outs, fmt.Sprintf("s%dg%d:%s", sv, gv, after))
 		out.Count("reload:" + e.conf + ":" + map[bool]string{true: "loaded", false: "refused"}[reloaded])
+		// which loading steps failed in this event (observed): the subset of {configuration, subnets, GeoIP}
+		out.Count("reload-failed-steps:{" + strings.Join([]string{map[bool]string{true: "", false: "conf"}[reloaded], map[bool]string{true: "", false: "subnets"}[serr == nil],
+			map[bool]string{true: "geoip", false: ""}[geoExtra != "" || e.conf == "valid-geobad" || e.conf == "valid-geogarbage"]}, ",") + "}")
 	}
 	ifs := "-"
 	if len(w.ifaces) > 0 {
@@ -974,6 +1053,11 @@ func TestVerifC19(t *testing.T) {
 	}
 	c19CheckMainReload(out)
 	r := vlib.NewRand("C19")
+	// no name of this harness needs the network: a lookup that gets as far as DNS fails at once
+	defer func(old *net.Resolver) { net.DefaultResolver = old }(net.DefaultResolver)
+	net.DefaultResolver = &net.Resolver{PreferGo: true, Dial: func(ctx context.Context, network, address string) (net.Conn, error) {
+		return nil, errors.New("no DNS in the C19 harness")
+	}}
 	one := func(content string) {
 		res := w.loadCase(out, content)
 		if res.kind == "ok" {
@@ -1028,6 +1112,22 @@ func TestVerifC19(t *testing.T) {
 		one("covert_blocklist_subnets = [" + strings.Join(l, ", ") + "]\nphantom_blocklist = [" + strings.Join(l[:1500], ", ") + "]\n")
 	}
 
+	// ---- lists whose entries are related to one another (every relation x every base x every subnet list, every
+	// ordered pair of overlapping patterns; then random combinations over all four lists)
+	c19EnumeratedRelConfs(func(c c19RelConf, what string) {
+		w.loadCase(out, c.toml())
+		out.Count("related:" + strings.SplitN(what, ":", 2)[0])
+	})
+	for i, nrel := 0, vlib.Budget(400, 12000); i < nrel; i++ {
+		c := c19RandomRelConf(r)
+		if i%16 == 0 {
+			one(c.toml())
+		} else {
+			w.loadCase(out, c.toml())
+		}
+		out.Count("related:random")
+	}
+
 	// ---- exhaustive over the liveness keys and over the policy keys, the other keys unset / random
 	pick := make([]int, len(c19LivenessKeys))
 	var rec func(keys []c19Key, i int, emit func())
@@ -1070,53 +1170,108 @@ func TestVerifC19(t *testing.T) {
 		one(c19Render(all, p))
 	}
 
-	// ---- reload sequences: every single event, pairs (sampled quick / all thorough), fixed triples around the
-	// allowlist, random long ones
+	// ---- reload sequences.  Which loading steps fail is a dimension of its own: every kind of configuration x
+	// every kind of subnets file x every kind of GeoIP database (none named / failing), then every ordered pair
+	// of failure subsets of {configuration, subnets, GeoIP} with random representatives, fixed triples around
+	// the allowlist, random long ones
+	geos := []string{"", "nonexistent", "garbage"}
+	if vlib.Tier() == "thorough" {
+		geos = append([]string{""}, c19GeoKinds...)
+	}
 	var singles []c19Event
 	for _, c := range c19ConfKinds {
 		for _, s := range []string{"valid", "bad-toml", "unreadable", "bad-generation"} {
-			singles = append(singles, c19Event{c, s})
+			for _, g := range geos {
+				if g != "" && (c == "valid-geobad" || c == "valid-geogarbage") {
+					continue // these two name their own databases
+				}
+				singles = append(singles, c19Event{c, s, g})
+			}
 		}
 	}
 	for _, e := range singles {
 		w.reloadCase(out, []c19Event{e})
 	}
-	for _, a := range singles {
-		for _, b := range singles {
-			if vlib.Tier() == "thorough" || r.Chance(1, 12) {
-				w.reloadCase(out, []c19Event{a, b})
+	// every ordered pair (triple in the thorough tier) of failure subsets: 8 x 8 (x 8), several representatives each
+	reps := vlib.Budget(3, 30)
+	for f1 := 0; f1 < 8; f1++ {
+		for f2 := 0; f2 < 8; f2++ {
+			for i := 0; i < reps; i++ {
+				w.reloadCase(out, []c19Event{c19EventFor(r, f1), c19EventFor(r, f2)})
+			}
+			if vlib.Tier() == "thorough" {
+				for f3 := 0; f3 < 8; f3++ {
+					for i := 0; i < 4; i++ {
+						w.reloadCase(out, []c19Event{c19EventFor(r, f1), c19EventFor(r, f2), c19EventFor(r, f3)})
+					}
+				}
 			}
 		}
 	}
+	for i, np := 0, vlib.Budget(250, 5000); i < np; i++ {
+		w.reloadCase(out, []c19Event{singles[r.Intn(len(singles))], singles[r.Intn(len(singles))]})
+	}
 	// allowlist set / dropped / set again, allowlist as the only change, the public-address option toggled,
-	// a failed load in between
+	// a failed load in between, related entries coming and going
 	for _, t := range [][]string{
 		{"valid-allow", "valid", "valid-allow"}, {"valid-allow", "toggle-allow", "toggle-allow"}, {"toggle-allow", "toggle-allow", "toggle-allow"},
 		{"valid", "toggle-allow", "valid-allow2"}, {"valid-allow", "valid-allow2", "valid"}, {"valid-allow2", "bad-allow", "toggle-allow"},
 		{"valid-public", "valid-allow", "valid-public"}, {"valid-public", "toggle-allow", "toggle-allow"}, {"valid-public", "valid", "valid-public"},
 		{"valid-allow", "empty", "valid-allow"}, {"valid-allow", "zmq-only", "toggle-allow"}, {"valid-allow", "bad-toml", "valid"},
 		{"toggle-allow", "unreadable", "toggle-allow"}, {"valid-geogarbage", "valid-allow", "valid-geobad"}, {"bad-bare-ip", "valid-allow", "bad-bare-ip"},
+		{"valid-related", "valid", "valid-related"}, {"valid-related-allow", "toggle-allow", "valid-related"}, {"valid-related", "bad-related", "valid-related-allow"},
 	} {
 		for _, sub := range []string{"valid", "bad-toml"} {
-			var evs []c19Event
-			for _, c := range t {
-				evs = append(evs, c19Event{c, sub})
+			for _, g := range []string{"", "nonexistent"} {
+				var evs []c19Event
+				for _, c := range t {
+					evs = append(evs, c19Event{c, sub, g})
+				}
+				w.reloadCase(out, evs)
 			}
-			w.reloadCase(out, evs)
 		}
 	}
 	m := vlib.Budget(300, 6000)
 	for i := 0; i < m; i++ {
 		var evs []c19Event
 		for j, l := 0, r.Range(3, 12); j < l; j++ {
-			e := c19Event{c19ConfKinds[r.Intn(len(c19ConfKinds))], c19SubnetKinds[r.Intn(len(c19SubnetKinds))]}
+			e := c19Event{c19ConfKinds[r.Intn(len(c19ConfKinds))], c19SubnetKinds[r.Intn(len(c19SubnetKinds))], ""}
 			if r.Chance(1, 2) {
 				e.conf = c19ConfKinds[r.Intn(c19ValidKinds)] // mostly configurations that load
+			}
+			if r.Chance(1, 3) {
+				e.geo = c19GeoKinds[r.Intn(len(c19GeoKinds))]
 			}
 			evs = append(evs, e)
 		}
 		w.reloadCase(out, evs)
 	}
+}
+
+// c19EventFor: a random event in which exactly the loading steps of the subset f fail
+// (bit 0: the configuration, bit 1: the subnets file, bit 2: the GeoIP databases)
+func c19EventFor(r *vlib.Rand, f int) c19Event {
+	var e c19Event
+	if f&1 != 0 {
+		bad := []string{"bad-subnet", "bad-allow", "bad-pattern", "bad-toml", "unreadable", "directory", "bad-type", "bad-bare-ip", "bad-phantom", "bad-related"}
+		e.conf = bad[r.Intn(len(bad))]
+	} else {
+		good := []string{"valid", "valid-allow", "valid-allow2", "valid-public", "toggle-allow", "valid-related", "valid-related-allow", "empty", "zmq-only"}
+		e.conf = good[r.Intn(len(good))]
+	}
+	e.subnets = "valid"
+	if f&2 != 0 {
+		e.subnets = []string{"bad-toml", "unreadable", "bad-generation"}[r.Intn(3)]
+	}
+	if f&4 != 0 {
+		e.geo = []string{"nonexistent", "garbage", "garbage-asn", "directory"}[r.Intn(4)]
+		if f&1 == 0 && r.Chance(1, 5) {
+			e.conf, e.geo = []string{"valid-geobad", "valid-geogarbage"}[r.Intn(2)], ""
+		}
+	} else if r.Bool() {
+		e.geo = "none"
+	}
+	return e
 }
 
 func (w *c19World) replay(t *testing.T, out *vlib.Out, path string) {
@@ -1144,9 +1299,8 @@ func (w *c19World) replay(t *testing.T, out *vlib.Out, path string) {
 		case strings.HasPrefix(line, "c19reload|"):
 			var evs []c19Event
 			for _, e := range strings.Split(strings.SplitN(line, "|", 2)[1], ",") {
-				p := strings.SplitN(e, "/", 2)
-				if len(p) == 2 {
-					evs = append(evs, c19Event{p[0], p[1]})
+				if ev, ok := c19ParseEvent(e); ok {
+					evs = append(evs, ev)
 				}
 			}
 			w.reloadCase(out, evs)
